@@ -465,3 +465,206 @@ def gen_scenario(rng, idx):
     sc = mk("gen%d" % idx, repos, events, backend)
     sc["shape"] = sorted(tags)
     return sc
+
+
+# =====================================================================================================
+# C25: multi-file Veryl projects (filelist order / completeness / path mapping)
+# =====================================================================================================
+
+def sym_text(s, syms, dep_alias):
+    """Veryl text of one symbol; references only to earlier symbols (acyclic at the symbol level)"""
+    body = []
+    for k, r in enumerate(s["refs"]):
+        t = syms[r]
+        tn = t["name"] if t["prj"] == s["prj"] else "%s::%s" % (dep_alias, t["name"])
+        if s["kind"] == "module":
+            if t["kind"] == "module":
+                body.append("inst u%d: %s;" % (k, tn))
+            elif t["kind"] == "interface":
+                body.append("inst i%d: %s;" % (k, tn))
+            else:
+                body.append("const c%d: u32 = %s::X;" % (k, tn))
+        elif s["kind"] == "interface":
+            body.append("const c%d: u32 = %s::X;" % (k, tn))
+        else:
+            body.append("const c%d: u32 = %s::X + 1;" % (k, tn))
+    pub = "pub " if s["prj"] == "dep" else ""
+    if s["kind"] == "module":
+        return "%smodule %s { %s }" % (pub, s["name"], " ".join(body))
+    if s["kind"] == "interface":
+        return "%sinterface %s { %s var v: logic; modport mp { v: input } }" % (pub, s["name"], " ".join(body))
+    return "%spackage %s { const X: u32 = %d; %s }" % (pub, s["name"], 1 + s["id"], " ".join(body))
+
+
+def allowed_ref(user, target):
+    if user["prj"] == "dep" and target["prj"] != "dep":
+        return False
+    if user["kind"] == "module":
+        return True
+    return target["kind"] == "package"
+
+
+def file_graph(syms):
+    edges = set()
+    for s in syms:
+        for r in s["refs"]:
+            if syms[r]["file"] != s["file"]:
+                edges.add((s["file"], syms[r]["file"]))     # user -> definition
+    return edges
+
+
+def acyclic(nodes, edges):
+    out = {}
+    for a, b in edges:
+        out.setdefault(a, set()).add(b)
+    state = {}
+
+    def visit(n):
+        if state.get(n) == 1:
+            return False
+        if state.get(n) == 2:
+            return True
+        state[n] = 1
+        for m in out.get(n, ()):
+            if not visit(m):
+                return False
+        state[n] = 2
+        return True
+    return all(visit(n) for n in nodes)
+
+
+def gen_project(rng, idx, force=None):
+    """returns a dict describing a scratch layout: files, settings, and the generator's knowledge
+    (symbols, which file defines what, reference edges)."""
+    force = force or {}
+    for _attempt in range(40):
+        with_dep = force.get("dep", rng.random() < 0.35)
+        nsym = rng.randint(3, 10)
+        syms = []
+        ndep = rng.randint(1, 4) if with_dep else 0
+        for i in range(ndep + nsym):
+            prj = "dep" if i < ndep else "main"
+            kind = rng.choice(["module", "module", "module", "package", "package", "interface"])
+            s = {"id": i, "prj": prj, "kind": kind,
+                 "name": {"module": "M", "package": "P", "interface": "I"}[kind] + ("d" if prj == "dep" else "") + str(i),
+                 "refs": []}
+            cands = [t for t in syms if allowed_ref(s, t)]
+            for _ in range(rng.choice([0, 1, 1, 2, 3])):
+                if cands:
+                    t = rng.choice(cands)
+                    if t["id"] not in s["refs"]:
+                        s["refs"].append(t["id"])
+            syms.append(s)
+        # files
+        roots = force.get("roots") or rng.choice([["src"], ["src"], ["src", "rtl"], ["hdl/core"], ["."]])
+        subdirs = ["", "", "x", "y", "x/deep"]
+        fnames = ["a", "b", "c", "top", "pkg", "a.b"]
+        files = {}           # (prj, relpath) -> [symbol ids]
+        mains = [s for s in syms if s["prj"] == "main"]
+        deps = [s for s in syms if s["prj"] == "dep"]
+        used_rel = set()
+        for group, roots_ in ((mains, roots), (deps, ["src"])):
+            pool = list(group)
+            rng.shuffle(pool)
+            while pool:
+                n = min(len(pool), rng.choice([1, 1, 2, 2, 3]))
+                chunk, pool = pool[:n], pool[n:]
+                for _ in range(50):
+                    root = rng.choice(roots_)
+                    rel = "/".join(x for x in (rng.choice(subdirs), rng.choice(fnames) + ".veryl") if x)
+                    # the same relative path under two source roots is the known collision: avoided here
+                    if (group is mains and rel in used_rel):
+                        continue
+                    key = ("main" if group is mains else "dep", (root + "/" if root != "." else "") + rel)
+                    if key in files:
+                        continue
+                    break
+                else:
+                    continue
+                if group is mains:
+                    used_rel.add(rel)
+                files[key] = [s["id"] for s in chunk]
+                for s in chunk:
+                    s["file"] = key
+                    s["root"] = root
+        if any("file" not in s for s in syms):
+            continue
+        edges = file_graph(syms)
+        ok = acyclic(list(files), edges)
+        want_cyclic = force.get("cyclic", False)
+        if ok == (not want_cyclic):
+            break
+    else:
+        return None
+    target = force.get("target") or rng.choice([("source", None), ("directory", "target"), ("directory", "out/sv"),
+                                                 ("bundle", "all.sv"), ("bundle", "gen/bundle.sv")])
+    smap = force.get("smap") or rng.choice([None, None, ("directory", "maps"), ("none", None), ("target", None)])
+    fl = force.get("filelist") or rng.choice(["absolute", "relative", "flgen"])
+    exclude_std = force.get("exclude_std", rng.random() < 0.9)
+    out_dir = force.get("out_dir", "outd" if rng.random() < 0.12 else None)
+    examples = rng.random() < 0.2
+    layout = {}
+    bl = ['sources = [%s]' % ", ".join('"%s"' % r for r in roots)]
+    if target[0] == "source":
+        bl.append('target = {type = "source"}')
+    else:
+        bl.append('target = {type = "%s", path = "%s"}' % target)
+    if smap:
+        bl.append('sourcemap_target = {type = "%s"%s}' % (smap[0], ', path = "%s"' % smap[1] if smap[1] else ""))
+    bl.append('filelist_type = "%s"' % fl)
+    bl.append('exclude_std = %s' % ("true" if exclude_std else "false"))
+    toml = '[project]\nname = "prj"\nversion = "0.1.0"\n[build]\n' + "\n".join(bl) + "\n"
+    if with_dep:
+        toml += '[dependencies]\nd1 = {path = "../dep1"}\n'
+        layout["dep1/Veryl.toml"] = '[project]\nname = "dep1"\nversion = "0.1.0"\n[build]\nsources = ["src"]\n'
+    layout["prj/Veryl.toml"] = toml
+    for (prj, rel), ids in files.items():
+        order = list(ids)
+        rng.shuffle(order)
+        text = "\n".join(sym_text(syms[i], syms, "d1") for i in order) + "\n"
+        layout[("prj/" if prj == "main" else "dep1/") + rel] = text
+    if examples:
+        m = [s for s in mains if s["kind"] == "module"]
+        layout["prj/examples/ex.veryl"] = "module Ex { %s }\n" % ("inst u: %s;" % m[0]["name"] if m else "")
+    if rng.random() < 0.2:
+        layout["prj/" + (roots[0] + "/" if roots[0] != "." else "") + "only_comment.veryl"] = "// nothing here\n"
+    return {"tag": "prj%d" % idx, "files": layout, "syms": syms, "srcfiles": {("%s/%s" % ("prj" if k[0] == "main" else "dep1", k[1])): v for k, v in files.items()},
+            "roots": roots, "target": target, "smap": smap, "filelist": fl, "exclude_std": exclude_std,
+            "out_dir": out_dir, "with_dep": with_dep, "acyclic": ok, "examples": examples}
+
+
+def c25_corpus():
+    out = []
+
+    def fixed(tag, files, roots=("src",), target=("directory", "target"), fl="absolute", extra=None, smap=None):
+        toml = '[project]\nname = "prj"\nversion = "0.1.0"\n[build]\nsources = [%s]\n' % ", ".join('"%s"' % r for r in roots)
+        if target[0] == "source":
+            toml += 'target = {type = "source"}\n'
+        else:
+            toml += 'target = {type = "%s", path = "%s"}\n' % target
+        if smap:
+            toml += 'sourcemap_target = {type = "%s"%s}\n' % (smap[0], ', path = "%s"' % smap[1] if smap[1] else "")
+        toml += 'filelist_type = "%s"\nexclude_std = true\n' % fl
+        lay = {"prj/Veryl.toml": toml}
+        lay.update({"prj/" + k: v for k, v in files.items()})
+        d = {"tag": tag, "files": lay, "syms": None, "roots": list(roots), "target": target, "smap": smap,
+             "filelist": fl, "exclude_std": True, "out_dir": None, "with_dep": False, "acyclic": True, "examples": False}
+        d.update(extra or {})
+        return d
+    # DESIGN.md section 9 item 4: the multi-symbol file
+    ms = {"src/f0.veryl": "module E {}\n", "src/f1.veryl": "module A { inst e: E; } module B { inst c: C; }\n",
+          "src/f2.veryl": "module C {}\n"}
+    ms_edges = {"order": [("prj/src/f0.veryl", "prj/src/f1.veryl"), ("prj/src/f2.veryl", "prj/src/f1.veryl")],
+                "listed": ["prj/src/f0.veryl", "prj/src/f1.veryl", "prj/src/f2.veryl"]}
+    out.append(fixed("multi-symbol", ms, extra=ms_edges))
+    out.append(fixed("multi-symbol-bundle", ms, target=("bundle", "all.sv"), extra=ms_edges))
+    # same file name in two directories of one source root, bundle target (staging paths used to collide)
+    out.append(fixed("bundle-same-name", {"src/a.veryl": "module A { inst c: C; }\n", "src/sub/a.veryl": "module C {}\n"},
+                     target=("bundle", "all.sv"), fl="relative",
+                     extra={"order": [("prj/src/sub/a.veryl", "prj/src/a.veryl")],
+                            "listed": ["prj/src/a.veryl", "prj/src/sub/a.veryl"]}))
+    # the known collision: same relative path under two source roots
+    out.append(fixed("two-roots-collision", {"src/a.veryl": "module A {}\n", "rtl/a.veryl": "module B {}\n"},
+                     roots=("src", "rtl"),
+                     extra={"order": [], "listed": ["prj/src/a.veryl", "prj/rtl/a.veryl"]}))
+    return out
